@@ -86,7 +86,7 @@ def corr(ctx):
                 ctx.corr_case("constants", ok, detail, branch=f"nseg={len(a)}")
             elif op == "mtot":
                 imf = PowerLawIMF(mb, a, N0=n0)
-                ctx.corr_case("Mtot", close(float(imf.Mtot), uh(o), rel=1e-4), detail)  # scipy.quad budget, see check_imf
+                ctx.corr_case("Mtot", close(float(imf.Mtot), uh(o), rel=1e-9), detail)  # scipy.quad between the break masses (after the fix)
             elif op == "eval":
                 ext, m = arg
                 imf = PowerLawIMF(mb, a, N0=n0, ext=EXT[ext])
@@ -173,9 +173,9 @@ def check_imf(mb, a, n0):
             return {"clause": "extrapolate mode continues the nearest component (above)"}
         M0 = 1234.5
         im0 = PowerLawIMF.from_M0(mb, a, M0)
-        # Mtot is scipy.quad with default tolerances across the kinks: measured ≤ 1e-5 relative, budget 1e-4
+        # Mtot is scipy.quad piecewise between the break masses (since the fix; it was off by up to 1.1e-4 across the kinks before)
         exact_M = gl_pieces(im0.M, mb[0], mb[-1], mb)
-        if abs(im0.Mtot - M0) > 1e-4 * M0 or abs(exact_M - M0) > 1e-4 * M0:
+        if abs(im0.Mtot - M0) > 1e-9 * M0 or abs(exact_M - M0) > 1e-8 * M0:
             return {"clause": "from_M0 yields that total mass", "observed": repr(im0.Mtot)}
     return None
 
